@@ -343,11 +343,12 @@ def load_known(prop):
 
 
 def match_known(known, bucket):
-    import fnmatch
+    import re
 
     for e in known:
         for k in e.get("keys", [e.get("key")]):
-            if k and fnmatch.fnmatchcase(bucket, k):
+            # only '*' is a wildcard (bucket names contain brackets and quotes)
+            if k and re.fullmatch(".*".join(re.escape(p) for p in k.split("*")), bucket):
                 return e
     return None
 
